@@ -221,16 +221,18 @@ func cmdCheck(args []string) int {
 			reports = append(reports, rep)
 			continue
 		}
-		wg.Add(1)
-		go func(c *FuncContract) {
-			defer wg.Done()
-			sem <- struct{}{}
-			defer func() { <-sem }()
-			rep := CheckFunc(P, fn, c)
-			mu.Lock()
-			reports = append(reports, rep)
-			mu.Unlock()
-		}(c)
+		for _, bc := range append([]*FuncContract{c}, c.Behaviors...) {
+			wg.Add(1)
+			go func(c *FuncContract) {
+				defer wg.Done()
+				sem <- struct{}{}
+				defer func() { <-sem }()
+				rep := CheckFunc(P, fn, c)
+				mu.Lock()
+				reports = append(reports, rep)
+				mu.Unlock()
+			}(bc)
+		}
 	}
 	wg.Wait()
 	for _, l := range P.CS.Lemmas {
